@@ -144,6 +144,12 @@ def _groupby_slice_transform(
     if len(df) == 0:
         return g.apply(func, *args, **kwargs)
 
+    # ... nor on one without groups (only NA keys): keep its rows, without
+    # values, as pandas does for such rows next to valid groups
+    if g.ngroups == 0:
+        result = g.apply(func, *args, **kwargs).reset_index(drop=True)
+        return result.reindex(range(len(df))).set_axis(df.index)
+
     return g.transform(func, *args, **kwargs)
 
 
